@@ -88,9 +88,21 @@ pub fn run(batch: &str, tape: &mut Tape, rep: &mut Report) {
 
     // engine level: one stateless stream per source with its own out-of-order bound and allowed lateness
     let mut src = String::new();
+    // some sources get a second consuming stream with its own allowed lateness: an event may be dropped as late
+    // only if it is beyond the allowed lateness of every stream consuming it, so the bound to judge is the maximum
+    let mut consumers: Vec<u64> = vec![1; nsrc];
+    let mut lateness = lateness;
     for s in 0..nsrc {
         src.push_str(&format!("stream S{} = {}\n  .watermark(out_of_order: {}ms)\n  .allowed_lateness({}ms)\n  .emit(seq: seq, src: \"{}\")\n", s + 1, ETY[s], ooo[s], lateness[s], ETY[s]));
+        if tape.chance(1, 2) {
+            let l2 = tape.draw(6) as i64 * 500;
+            src.push_str(&format!("stream T{} = {}\n  .watermark(out_of_order: {}ms)\n  .allowed_lateness({}ms)\n  .emit(seq: seq, src: \"{}\")\n", s + 1, ETY[s], ooo[s], l2, ETY[s]));
+            consumers[s] = 2;
+            if l2 != lateness[s] { rep.probe("two-consumers-with-different-lateness"); }
+            lateness[s] = lateness[s].max(l2);
+        }
     }
+    rep.log(format!("program {:?}", src));
     let mut en = Eng::new(&src).unwrap_or_else(|e| panic!("vsim harness: program rejected: {} :: {}", e, src));
     let mut idle: Option<usize> = if tape.chance(1, 3) { Some(tape.draw(nsrc as u64) as usize) } else { None };
     for i in 0..n as i64 {
@@ -136,8 +148,8 @@ pub fn run(batch: &str, tape: &mut Tape, rep: &mut Report) {
                 rep.probe("late-but-within-lateness-processed");
             }
         }
-        if out.len() > 1 {
-            rep.violate("event-processed-twice", "-", format!("#{}: {} outputs", i, out.len()));
+        if out.len() as u64 > consumers[s] {
+            rep.violate("event-processed-twice", "-", format!("#{}: {} outputs for {} consuming stream(s)", i, out.len(), consumers[s]));
         }
         if let Some(cp) = en.engine.create_checkpoint().watermark_state {
             check_tracker_state(&cp, &mut prev, rep, &format!("deliver {} ts={}", ETY[s], ts));
